@@ -77,6 +77,12 @@ func exercise(sc schema.Scope, inputs []val.V, stage *string) {
 		u, err := sc.Unserialize(in.Go())
 		*stage = fmt.Sprintf("ValidateCompatibility(input %d)", i)
 		_ = sc.ValidateCompatibility(in.Go())
+		// the raw input is also a native value (map-based objects): what Unserialize refuses up front - a disabled
+		// property, say - still reaches Validate and Serialize this way
+		*stage = fmt.Sprintf("Validate(input %d)", i)
+		_ = sc.Validate(in.Go())
+		*stage = fmt.Sprintf("Serialize(input %d)", i)
+		_, _ = sc.Serialize(in.Go())
 		if err != nil {
 			continue
 		}
